@@ -43,6 +43,7 @@ pub fn run(ctx: &Ctx) {
         },
         |_| json!({"kind":"c09-program","generator":"C08 structured programs"}),
     );
+    crate::c08::eof_family(ctx, "c09");
     for k in ["c09/int/buffer-near-or-across-2^20", "c09/int/string-across-2^20", "c09/int/string-starts-at-or-beyond-2^20", "c09/int/line-longer-than-capacity"] {
         ctx.require_class(k, 10);
     }
